@@ -131,6 +131,42 @@ theorem send_after_bridge_exit_counterexample : ¬ C12_sink_nothing_lost channel
   revert this
   decide
 
+/-- **nothing is lost while the process keeps running, partial form of `C12_sink_nothing_lost`**:
+    decidable hypotheses — no shutdown is requested (`keepsRunning`), the trace is no longer than
+    the mailbox capacity (so no `try_send` can find it full), and the byte estimates of everything
+    handed in stay within the back-pressure threshold.  Then, for every fault oracle (failed
+    flushes, death of the process), every flush configuration and every interleaving: nothing is
+    rejected, skipped or dropped — every update handed to the sink is on its way or confirmed. -/
+theorem sink_nothing_lost_partial (F : Oracle) (cfg : WbCfg) (cap : Nat) (rid now : Nat) (evs : List Ev)
+    (hrun : ∀ e ∈ evs, e.keepsRunning = true) (hcap : evs.length ≤ cap)
+    (hbp : evsEst evs ≤ cfg.backpressure) :
+    (StreamActor.run F cfg cap (A.init [] rid now) evs).rejected = [] ∧
+    (StreamActor.run F cfg cap (A.init [] rid now) evs).skipped = [] ∧
+    (StreamActor.run F cfg cap (A.init [] rid now) evs).dropped = [] ∧
+    List.Perm (StreamActor.run F cfg cap (A.init [] rid now) evs).sent
+      (inFlight (StreamActor.run F cfg cap (A.init [] rid now) evs) ++
+       (StreamActor.run F cfg cap (A.init [] rid now) evs).acked) := by
+  have hq0 : Quiet (A.init [] rid now) 0 0 := by
+    refine ⟨rfl, rfl, by simp [A.init], by simp [A.init, PX.init, mboxEst, estOf_nil], rfl, rfl, rfl, by simp [A.init]⟩
+  have hq := quiet_run F cfg cap evs (A.init [] rid now) 0 0 hq0 hrun (by omega) (by omega)
+  obtain ⟨_, _, _, _, hr, hs, hd, _⟩ := hq
+  refine ⟨hr, hs, hd, ?_⟩
+  have := sink_conservation F cfg cap [] rid now evs
+  rw [hr, hs, hd] at this
+  simpa using this
+
+/-- non-vacuity: a trace with a failed flush satisfies the hypotheses and confirms something -/
+example :
+    let evs : List Ev := [.send (sd 97 1 5 1), .send (sd 98 2 6 1), .drain, .actor 100, .bridgeTick, .actor 100,
+                          .send (sd 99 3 7 1), .drain, .actor 100]
+    let cfg : WbCfg := { bigCfg with maxDeltas := 2 }
+    let F : Oracle := fun n => if n = 1 then .fail else .ok
+    (∀ e ∈ evs, e.keepsRunning = true) ∧ evs.length ≤ channelCapacity ∧ evsEst evs ≤ cfg.backpressure ∧
+    (StreamActor.run F cfg channelCapacity (A.init [] 1 0) evs).acked.length = 2 ∧
+    (StreamActor.run F cfg channelCapacity (A.init [] 1 0) evs).x.p.buffer.length = 1 ∧
+    (StreamActor.run F cfg channelCapacity (A.init [] 1 0) evs).w.calls = 6 := by
+  decide
+
 /-- on those traces the other classes behave as the conservation theorem says (non-vacuity of
     the classes): one accepted + one rejected + one skipped; and a dropped batch -/
 example :
